@@ -1,10 +1,10 @@
-SPECIFICATION Spec
+SPECIFICATION SpecSim
 CONSTANTS
-  Scenarios <- SimScenarios
+  Scenarios = {}
   ResetBody = FALSE
   RefreshScrollId = FALSE
   DefaultPageSize = FALSE
-INVARIANT TypeOK
+INVARIANT TypeOKSim
 INVARIANT InOrderOnce
 INVARIANT PagesWithinLimit
 INVARIANT Complete
